@@ -118,10 +118,10 @@ pub fn reference_rules(m: &v1::Instance) -> (BTreeSet<(String, String)>, bool) {
     let mut defined = BTreeSet::new();
     for d in &m.decision_variables {
         if !(1..=5).contains(&d.kind) {
-            add("UnspecifiedEnum", "decision_variables");
+            add("UnspecifiedEnum#kind", "decision_variables");
         }
         if d.bound.as_ref().is_some_and(bound_invalid) {
-            add("InvalidBound", "decision_variables");
+            add("InvalidBound#bound", "decision_variables");
         }
         if !defined.insert(d.id) {
             add("DuplicatedVariableID", "decision_variables");
@@ -134,7 +134,9 @@ pub fn reference_rules(m: &v1::Instance) -> (BTreeSet<(String, String)>, bool) {
         }
         Some(f) => {
             if !fn_supported(f) {
-                v.insert(("UnsupportedV1Function".to_string(), field.to_string()));
+                // inside a constraint the innermost frame names the `function` field
+                let inner = if field == "constraints" || field == "removed_constraints" { "#function" } else { "" };
+                v.insert((format!("UnsupportedV1Function{inner}"), field.to_string()));
             }
             if !ids_of_function(f).is_subset(&defined) {
                 v.insert(("UndefinedVariableID".to_string(), field.to_string()));
@@ -156,7 +158,7 @@ pub fn reference_rules(m: &v1::Instance) -> (BTreeSet<(String, String)>, bool) {
     let mut cids = BTreeSet::new();
     for c in &m.constraints {
         if c.equality != EQ_ZERO && c.equality != LE_ZERO {
-            vv.insert(("UnspecifiedEnum".to_string(), "constraints".to_string()));
+            vv.insert(("UnspecifiedEnum#equality".to_string(), "constraints".to_string()));
         }
         check_fn(&c.function, "constraints", "function", true, &mut vv, &mut vr);
         if !cids.insert(c.id) {
@@ -172,7 +174,7 @@ pub fn reference_rules(m: &v1::Instance) -> (BTreeSet<(String, String)>, bool) {
             }
             Some(c) => {
                 if c.equality != EQ_ZERO && c.equality != LE_ZERO {
-                    vv.insert(("UnspecifiedEnum".to_string(), "removed_constraints".to_string()));
+                    vv.insert(("UnspecifiedEnum#equality".to_string(), "removed_constraints".to_string()));
                 }
                 check_fn(&c.function, "removed_constraints", "function", true, &mut vv, &mut vr);
                 if !cids.insert(c.id) {
@@ -191,38 +193,38 @@ pub fn reference_rules(m: &v1::Instance) -> (BTreeSet<(String, String)>, bool) {
     if let Some(h) = &m.constraint_hints {
         for o in &h.one_hot_constraints {
             if !active_ids.contains(&o.constraint_id) {
-                vv.insert(("UndefinedConstraintID".to_string(), "constraint_hints".to_string()));
+                vv.insert(("UndefinedConstraintID#constraint_id".to_string(), "constraint_hints".to_string()));
             }
             let mut seen = BTreeSet::new();
             for x in &o.decision_variables {
                 if !defined.contains(x) {
-                    vv.insert(("UndefinedVariableID".to_string(), "constraint_hints".to_string()));
+                    vv.insert(("UndefinedVariableID#decision_variables".to_string(), "constraint_hints".to_string()));
                 }
                 if !seen.insert(*x) {
-                    vv.insert(("NonUniqueVariableID".to_string(), "constraint_hints".to_string()));
+                    vv.insert(("NonUniqueVariableID#decision_variables".to_string(), "constraint_hints".to_string()));
                 }
             }
         }
         for s in &h.sos1_constraints {
             if !active_ids.contains(&s.binary_constraint_id) {
-                vv.insert(("UndefinedConstraintID".to_string(), "constraint_hints".to_string()));
+                vv.insert(("UndefinedConstraintID#binary_constraint_id".to_string(), "constraint_hints".to_string()));
             }
             let mut seen = BTreeSet::new();
             for x in &s.big_m_constraint_ids {
                 if !active_ids.contains(x) {
-                    vv.insert(("UndefinedConstraintID".to_string(), "constraint_hints".to_string()));
+                    vv.insert(("UndefinedConstraintID#big_m_constraint_ids".to_string(), "constraint_hints".to_string()));
                 }
                 if !seen.insert(*x) {
-                    vv.insert(("NonUniqueConstraintID".to_string(), "constraint_hints".to_string()));
+                    vv.insert(("NonUniqueConstraintID#big_m_constraint_ids".to_string(), "constraint_hints".to_string()));
                 }
             }
             let mut seen = BTreeSet::new();
             for x in &s.decision_variables {
                 if !defined.contains(x) {
-                    vv.insert(("UndefinedVariableID".to_string(), "constraint_hints".to_string()));
+                    vv.insert(("UndefinedVariableID#decision_variables".to_string(), "constraint_hints".to_string()));
                 }
                 if !seen.insert(*x) {
-                    vv.insert(("NonUniqueVariableID".to_string(), "constraint_hints".to_string()));
+                    vv.insert(("NonUniqueVariableID#decision_variables".to_string(), "constraint_hints".to_string()));
                 }
             }
         }
@@ -424,6 +426,28 @@ pub fn catalogue(base: &v1::Instance) -> Vec<Fault> {
             }
         }
     }
+    // add a hint that names an undefined constraint (also on bases without hints or without active constraints)
+    let first_var = base.decision_variables.first().map_or(0, |v| v.id);
+    push(
+        "one_hot += {constraint undefined}".into(),
+        Box::new(move |m| {
+            let h = m.constraint_hints.get_or_insert_with(Default::default);
+            let mut o = v1::OneHot::default();
+            o.constraint_id = UNDEF;
+            o.decision_variables = vec![first_var];
+            h.one_hot_constraints.push(o);
+        }),
+    );
+    push(
+        "sos1 += {binary constraint undefined}".into(),
+        Box::new(move |m| {
+            let h = m.constraint_hints.get_or_insert_with(Default::default);
+            let mut x = v1::Sos1::default();
+            x.binary_constraint_id = UNDEF;
+            x.decision_variables = vec![first_var];
+            h.sos1_constraints.push(x);
+        }),
+    );
     for k in dep_keys {
         push(
             format!("dependency key {k}:=undefined"),
@@ -439,6 +463,17 @@ pub fn catalogue(base: &v1::Instance) -> Vec<Fault> {
         push(format!("var[{i}].bound:=absent (neutral)"), Box::new(move |m| m.decision_variables[i].bound = None));
     }
     push("hints:=absent (neutral)".into(), Box::new(|m| m.constraint_hints = None));
+    push(
+        "all active constraints relaxed".into(),
+        Box::new(|m| {
+            for c in std::mem::take(&mut m.constraints) {
+                let mut r = v1::RemovedConstraint::default();
+                r.constraint = Some(c);
+                r.removed_reason = "relaxed".into();
+                m.removed_constraints.push(r);
+            }
+        }),
+    );
     push("description:=absent (neutral)".into(), Box::new(|m| m.description = None));
     out
 }
@@ -477,12 +512,17 @@ fn check_message(l: &mut Local, case: &Case, m: &v1::Instance, tag: &str) {
     }
     // --- typed conversion
     l.transitions += 1;
-    let r = sdk(|| ommx::Instance::try_from(m.clone()).map_err(|e| (variant_of(&e.error), e.context.last().map(|c| c.field.to_string()), format!("{e}"))));
+    let r = sdk(|| {
+        ommx::Instance::try_from(m.clone()).map_err(|e| {
+            let inner = if e.context.len() >= 2 { e.context.first().map(|c| c.field.to_string()) } else { None };
+            (variant_of(&e.error), e.context.last().map(|c| c.field.to_string()), inner, format!("{e}"))
+        })
+    });
     match r {
         Err(p) => l.violation(&format!("{tag}/try_from/panic"), || json!(case), p),
         Ok(Ok(typed)) => {
             if !rules.is_empty() {
-                let what: Vec<String> = rules.iter().map(|(a, b)| format!("{a}@{b}")).collect();
+                let what: Vec<String> = rules.iter().map(|(a, b)| format!("{}@{b}", a.split('#').next().unwrap())).collect();
                 l.violation(
                     &format!("{tag}/try_from/accepted-ill-formed/{}", what[0]),
                     || json!(case),
@@ -494,17 +534,32 @@ fn check_message(l: &mut Local, case: &Case, m: &v1::Instance, tag: &str) {
                 }
             }
         }
-        Ok(Err((variant, field, text))) => {
+        Ok(Err((variant, field, inner, text))) => {
             if rules.is_empty() {
                 l.violation(&format!("{tag}/try_from/rejected-well-formed"), || json!(case), format!("typed conversion rejected a well-formed message: {text}"));
             } else {
                 // MissingField of the objective names its field itself and carries no context
-                let ok = rules.iter().any(|(v, f)| *v == variant && (field.as_deref() == Some(f.as_str()) || (field.is_none() && variant == format!("MissingField:{f}"))));
-                if !ok {
+                // a rule is written "Variant#inner" when the innermost frame of the path must name `inner`
+                let matches_rule = |v: &String, f: &String, need_inner: bool| {
+                    let (rv, rinner) = match v.split_once('#') {
+                        Some((a, b)) => (a, Some(b)),
+                        None => (v.as_str(), None),
+                    };
+                    rv == variant
+                        && (field.as_deref() == Some(f.as_str()) || (field.is_none() && variant == format!("MissingField:{f}")))
+                        && (!need_inner || rinner.is_none() || inner.as_deref() == rinner)
+                };
+                if !rules.iter().any(|(v, f)| matches_rule(v, f, false)) {
                     l.violation(
                         &format!("{tag}/try_from/error-does-not-name-the-rule"),
                         || json!(case),
                         format!("error variant {variant} with outermost field {field:?} ({}) ; the message violates {rules:?}", truncate(&text, 300)),
+                    );
+                } else if !rules.iter().any(|(v, f)| matches_rule(v, f, true)) {
+                    l.violation(
+                        &format!("{tag}/try_from/path-does-not-reach-the-offending-field"),
+                        || json!(case),
+                        format!("error variant {variant}, outermost field {field:?}, innermost field {inner:?} ({}) ; expected the path to end at the offending field: {rules:?}", truncate(&text, 300)),
                     );
                 }
             }
